@@ -410,3 +410,119 @@ def _soap_headers(sx, p, types_only=False):
     if present[2] and n_ is not None:
         ok += [type(n_).__name__ == 'Tenant', sx.eq(n_.name, ten)]
     return sx.And(*ok)
+
+
+# ---------------------------------------------------------------- bare body styles
+class BInner(ComplexModel):
+    __namespace__ = TNS
+    v = Integer
+    w = Unicode
+
+
+class BareSvc(Service):
+    @rpc(BInner, _returns=BInner, _body_style='bare')
+    def b_obj(ctx, p):
+        CAP['args'] = (p,)
+        return p
+
+    @rpc(Integer, _returns=Integer, _body_style='bare')
+    def b_int(ctx, a):
+        CAP['args'] = (a,)
+        return a
+
+    @rpc(Integer, Unicode, _returns=Integer, _body_style='out_bare')
+    def b_out(ctx, a, s):
+        CAP['args'] = (a, s)
+        return a
+
+    @rpc(Array(Integer), _returns=Array(Integer), _body_style='bare')
+    def b_arr(ctx, xs):
+        CAP['args'] = (xs,)
+        return xs
+
+
+BAPPS = {}
+
+
+@harness('C01', params=[(p, m) for p in sorted(PROTS) for m in ('b_obj', 'b_int', 'b_out', 'b_arr')], label=lambda p: '%s %s' % p,
+         functions=['spyne.protocol.xml.XmlDocument.deserialize', 'spyne.protocol.xml.XmlDocument.serialize',
+                    'spyne.protocol.soap.soap11.Soap11.deserialize', 'spyne.protocol.soap.soap11.Soap11.serialize'],
+         bounds={'styles': "bare with an object / an integer / an array of 0..2 integers, out_bare with two arguments; leaves "
+                           "symbolic (|n| <= 10^6, 2-char strings); the response is decoded on every path witness"})
+def bare_styles(sx, p):
+    """bare and out_bare methods: the function receives the value the body entry denotes and the response's single body
+    entry, named <method>Response, denotes exactly what it returned"""
+    pname, m = p
+    if pname not in BAPPS:
+        P = PROTS[pname]
+        app = Application([BareSvc], TNS, in_protocol=P(validator='soft'), out_protocol=P())
+        BAPPS[pname] = (app, ServerBase(app))
+    app, server = BAPPS[pname]
+    prot = app.in_protocol
+    T = lambda v: prot.to_unicode(Integer, v)
+    a = sx.int('a', -10 ** 6, 10 ** 6)
+    s = sx.text('s', 2, alphabet='ab <&')
+    n = sx.choose('n', [2, 0, 1]) if m == 'b_arr' else 0
+    xs = [sx.int('x%d' % i, -99, 99) for i in range(n)]
+    if m == 'b_obj':
+        root = el(sx, m, children=[el(sx, 'v', T(a)), el(sx, 'w', s)])
+    elif m == 'b_int':
+        root = el(sx, m, T(a))
+    elif m == 'b_out':
+        root = el(sx, m, children=[el(sx, 'a', T(a)), el(sx, 's', s)])
+    else:
+        root = el(sx, m, children=[el(sx, 'integer', T(x)) for x in xs])
+    CAP.clear()
+
+    def args_ok(got):
+        if m == 'b_obj':
+            return got is not None and sx.And(sx.eq(got[0].v, a), sx.eq(got[0].w, s))
+        if m == 'b_int':
+            return sx.eq(got[0], a)
+        if m == 'b_out':
+            return sx.And(sx.eq(got[0], a), sx.eq(got[1], s))
+        g = got[0] or []
+        return len(g) == n and sx.And(*[sx.eq(x, y) for x, y in zip(g, xs)])
+    if sx.symbolic:
+        ctx = MethodContext(server, MethodContext.SERVER)
+        ctx.in_document = root
+        ctx.in_body_doc = root
+        ctx.in_header_doc = None
+        ctx.method_request_string = root.tag
+        ctx, = prot.generate_method_contexts(ctx)
+        prot.deserialize(ctx, prot.REQUEST)
+        got = ctx.in_object
+        if m != 'b_out':
+            got = [got]         # bare: the message object is the argument
+        return args_ok(got)
+    from lxml import etree
+    body = etree.tostring(root)
+    if pname != 'XmlDocument':
+        body = ('<e:Envelope xmlns:e="%s"><e:Body>' % SOAP_ENV[pname]).encode() + body + b'</e:Body></e:Envelope>'
+    ctx = MethodContext(server, MethodContext.SERVER)
+    ctx.in_string = [body]
+    ctx, = server.generate_contexts(ctx)
+    if ctx.in_error is not None:
+        return False
+    server.get_in_object(ctx)
+    if ctx.in_error is not None:
+        return False
+    server.get_out_object(ctx)
+    if ctx.out_error is not None or 'args' not in CAP:
+        return False
+    ok = [args_ok(CAP['args'])]
+    server.get_out_string(ctx)
+    resp = etree.fromstring(b''.join(ctx.out_string))
+    if pname != 'XmlDocument':
+        b = resp.find('{%s}Body' % SOAP_ENV[pname])
+        if b is None or len(b) != 1:
+            return False
+        resp = b[0]
+    ok.append(resp.tag == q(m + 'Response'))
+    if m == 'b_obj':
+        ok.append([(etree.QName(c).localname, c.text) for c in resp] == [('v', T(a)), ('w', s)])
+    elif m in ('b_int', 'b_out'):
+        ok.append(len(resp) == 0 and resp.text == T(a))
+    else:
+        ok.append([c.text for c in resp] == [T(x) for x in xs])
+    return sx.And(*ok)
